@@ -22,7 +22,9 @@ RULE = ("seeded P-code generator (Watch/Alarm/Block/Macro, Wait, thresholds, tim
         "kind, mixed kinds, or a command that raises (invalid Pause/Hold argument, failing UOD exec) plus UOD commands / "
         "timed Pause/Hold - requested in ONE tick from 2-3 interpreter paths (Watch/Alarm handlers firing together, Watch "
         "body calling a macro, main path, injected code; main path / injection aligned by trying offsets against the real "
-        "engine until a reference run shows a request that sits in the command manager without having started); cancel at "
+        "engine until a reference run shows a request that sits in the command manager without having started), or (family "
+        "'resumed') a timed Pause/Hold resumed by an operator Unpause/Unhold 1-4 ticks after its start, whose command object "
+        "keeps running so that the next Pause/Hold line of the method waits behind it in a LATER tick; cancel at "
         "EVERY tick of the waiting window on each waiting item, force on them with p=0.5 (thorough 1.0), cancel/force on the "
         "other command items of the window with p=0.5/0.15 (thorough 1.0/0.3), on all other items sparsely. "
         "distinct = (method shape hash, tick, item index, kind); non-trivial = the request was judged by at least "
@@ -55,9 +57,9 @@ REQUIRED = {"requests": 2000, "not_offered_requests": 800, "offered_accepted": 1
             "rule_cancel_pause_hold": 5, "rule_cancel_uod": 20, "rule_force_watch": 5, "rule_force_wait": 10,
             # directed stratum: requests cancelled / forced while they wait in the command manager
             "directed_methods_with_waiting_requests": 60, "directed_methods_same": 25, "directed_methods_raiser": 10,
-            "directed_methods_mixed": 2, "directed_methods_lane_main": 8, "directed_methods_lane_inject": 8,
+            "directed_methods_mixed": 2, "directed_methods_resumed": 3, "directed_methods_lane_main": 8, "directed_methods_lane_inject": 8,
             "directed_methods_lane_macro": 5, "directed_methods_two_requests_waiting_at_once": 3,
-            "waiting_cancel_requests": 250, "waiting_cancel_accepted_pause_hold": 150, "waiting_cancel_accepted_uod": 6,
+            "waiting_cancel_requests": 250, "waiting_cancel_accepted_pause_hold": 150, "waiting_cancel_accepted_uod": 5,
             "waiting_cancel_never_started_judged": 160, "waiting_cancel_state_bound_judged": 120,
             "waiting_cancel_not_offered_judged": 30, "waiting_force_not_offered_judged": 80,
             "rule_state_bound_with_other_holders": 200}
@@ -66,7 +68,7 @@ REQUIRED = {"requests": 2000, "not_offered_requests": 800, "offered_accepted": 1
 def plan(tier, seed):
     n = 128 if tier == "quick" else 2000
     shards = 16 if tier == "quick" else 50
-    nd = 96 if tier == "quick" else 800         # methods of the directed stratum (requests waiting in the command manager)
+    nd = 112 if tier == "quick" else 800        # methods of the directed stratum (requests waiting in the command manager)
     return [{"seed": seed * 1000003 + i, "n": max(1, n // shards), "max_depth": 3 if tier == "quick" else 4,
              "p_off": 0.6 if tier == "quick" else 1.0, "p_not": 0.12 if tier == "quick" else 0.25,
              "directed": max(1, nd // shards), "p_dir": 0.5 if tier == "quick" else 1.0}
@@ -125,7 +127,9 @@ def reference_items(m):
 #     (requests are executed newest first: the LAST one requested in a tick starts, the earlier ones queue behind it);
 #   * any command: execute_commands() aborts its loop when a command raises, so every request that was scheduled in the
 #     same tick BEFORE the raising one has not been looked at yet and starts one tick later.
-# Both need two or three requests in ONE tick, i.e. several interpreter paths reaching a command line together: Watch /
+#   * (family "resumed") an operator Unhold / Unpause leaves the state but not the timed command: the command object keeps
+#     running until its time is up, a Pause/Hold line reached meanwhile waits behind it although it was requested later.
+# The first two need two or three requests in ONE tick, i.e. several interpreter paths reaching a command line together: Watch /
 # Alarm handlers whose conditions become true in the same tick, a Watch body calling a macro, the main path, injected code.
 D_DUR = ("0.3", "0.4", "0.6", "0.9")
 D_COND = ("FT01 > 3 L/h", "FT01 > 5 L/h", "FT01 > 1 L/h", "FT01 > 3 L/h")
@@ -137,10 +141,48 @@ def _d_timed(rnd, kind=None):
     return f"{kind or rnd.choice(('Pause', 'Hold'))}: {rnd.choice(D_DUR)}s"
 
 
+def gen_resumed(rnd: random.Random):
+    """Third way to make a request wait: the operator resumes (Unhold / Unpause) while a timed Hold / Pause is running.
+    The command object keeps running until its time is up although the state is left, so the next Hold / Pause line of
+    the method - requested in a LATER tick - waits behind it."""
+    kind = rnd.choice(("Pause", "Hold"))
+    first = f"{kind}: {rnd.choice(('0.9', '1.2', '1.5'))}s"
+    second = _d_timed(rnd, kind) if rnd.random() < 0.8 else kind
+    n = [0]
+
+    def lab():
+        n[0] += 1
+        return f"d{n[0]}"
+
+    seq = [f"Mark: {lab()}" for _ in range(rnd.randint(0, 1))] + [first] + \
+        [f"Mark: {lab()}" for _ in range(rnd.randint(0, 2))] + [second, f"Mark: {lab()}"]
+    if rnd.random() < 0.5:
+        lines = ["Base: s", f"Watch: {rnd.choice(D_COND)}"] + ["    " + s for s in seq] + [f"Mark: {lab()}", "Wait: 0.5s"]
+        lanes = ["watch", "resume"]
+    else:
+        lines = ["Base: s"] + seq
+        lanes = ["main", "resume"]
+    step = rnd.randint(6, 12)
+    m = {"text": "\n".join(lines) + "\n", "traj": [0.0] * step + [6.0] * (200 - step), "long_n": 3, "fail_at": 1,
+         "injects": [], "user": [], "directed": "resumed", "cmd_lines": sorted({first, second}), "lanes": lanes}
+    ref = directed_reference(m)
+    started = [t for (t, _, b) in ref if b]
+    if not started:
+        return None
+    m["user"] = [[min(started) + rnd.randint(1, 4), "Un" + kind.lower()]]
+    ref = directed_reference(m)
+    if any(w for (_, ents, _) in ref for (_, _, w, _) in ents):
+        return m, ref
+    return None
+
+
 def gen_directed(rnd: random.Random):
     """One method of the directed stratum, aligned (by trying offsets against the real engine) so that at least one
     request waits in the command manager; None if no alignment was found."""
-    fam = rnd.choice(("same", "same", "same", "mixed", "raiser", "raiser", "raiser"))
+    fam = rnd.choice(("same", "same", "same", "same", "mixed", "mixed", "raiser", "raiser", "raiser", "raiser", "raiser",
+                      "resumed"))
+    if fam == "resumed":
+        return gen_resumed(rnd)
     k = rnd.choice((2, 2, 3, 3))
     if fam == "same":
         kind = rnd.choice(("Pause", "Hold"))
@@ -151,7 +193,7 @@ def gen_directed(rnd: random.Random):
         k = 3
         cmds = [_d_timed(rnd, "Pause"), _d_timed(rnd, "Hold"), rnd.choice((_d_timed(rnd), rnd.choice(D_UOD)))]
     else:
-        cmds = [rnd.choice(D_RAISERS)] + [rnd.choice((_d_timed(rnd), rnd.choice(D_UOD), rnd.choice(D_UOD)))
+        cmds = [rnd.choice(D_RAISERS)] + [rnd.choice((_d_timed(rnd), rnd.choice(D_UOD), rnd.choice(D_UOD), rnd.choice(D_UOD)))
                                            for _ in range(k - 1)]
     rnd.shuffle(cmds)
     # every command gets a lane = an interpreter path of its own
@@ -244,6 +286,7 @@ def directed_reference(m):
     from opv.rigs import engine_rig as R
     rig = R.EngineRig(m["text"], long_n=m["long_n"], fail_at=m.get("fail_at", 1))
     inj = {int(t): s for t, s in m.get("injects", [])}
+    usr = {int(t): s for t, s in m.get("user", [])}
     names = set(m.get("cmd_lines", ()))
     out = []
     try:
@@ -267,6 +310,8 @@ def directed_reference(m):
                     rig.e.inject_code(inj[rig.k])
                 except Exception:
                     break
+            if rig.k in usr:
+                rig.user(usr[rig.k])
             rig.hw.inputs["FT01"] = m["traj"][rig.k]
             rig.tick()
     finally:
@@ -286,14 +331,17 @@ def check_case(case, res: Result):
     viol: list[tuple] = []
     judged = False
     inj = {int(t): s for t, s in case.get("injects", [])}
+    usr = {int(t): s for t, s in case.get("user", [])}
     first_running: dict[int, tuple] = {}     # id(Pause/Hold command object) -> (object, first tick at whose end it ran)
 
     def feed():
         # everything that happens between two ticks apart from the request under test: the scripted reading and (directed
-        # stratum) code injected before this tick
+        # stratum) code injected / an operator command sent before this tick
         rig.hw.inputs["FT01"] = case["traj"][min(rig.k, len(case["traj"]) - 1)]
         if rig.k in inj:
             rig.e.inject_code(inj[rig.k])
+        if rig.k in usr:
+            rig.user(usr[rig.k])
 
     def interp_will_tick():
         e = rig.e
@@ -436,7 +484,8 @@ def check_case(case, res: Result):
                     # instance id; the second request re-creates the command after the cancel
                     mech = "C12.two_requests_share_one_instance_id" if shared else \
                         "C12.cancel_before_command_start_does_not_prevent_it" if not_started_yet else \
-                        "C12.cancelled_pause_hold_still_running"
+                        "C12.cancel_of_running_command_lands_on_newer_waiting_request_of_same_name" \
+                        if (was_running and intercepted) else "C12.cancelled_pause_hold_still_running"
                     viol.append((mech, f"{descr} accepted{' while its request was waiting in the command manager' if waiting else ''}"
                                  f", but the {nm} command instance {iid[:8]} is running at tick(s) {in_effect[:6]} (item "
                                  f"states at request: {inst_states}, states recorded after the cancel: {after})"))
@@ -672,7 +721,7 @@ def run_shard(spec):
         m, ref = g
         res.count("directed_methods_with_waiting_requests")
         res.count(f"directed_methods_{m['directed']}")
-        for ln in set(m["lanes"]) - {"watch"}:
+        for ln in set(m["lanes"]) - {"watch", "resume"}:
             res.count(f"directed_methods_lane_{ln}")
         if any(sum(1 for e in ents if e[2]) >= 2 for (_, ents, _) in ref):
             res.count("directed_methods_two_requests_waiting_at_once")
